@@ -13,6 +13,16 @@ import json, os, re, shutil, subprocess, sys, time
 from vlib import finish, log, ToolError, VERIF
 
 HS = os.path.join(VERIF, "harness-schema")
+_alt = os.environ.get("VERIF_REPO")
+if _alt and os.path.abspath(_alt) != "/repo":
+    # development aid (seeded changes in a scratch checkout): a copy of the generated crate built against that checkout
+    import hashlib, subprocess as _sp
+    _hs = os.path.join(VERIF, "work", "harness-schema-alt-" + hashlib.sha1(os.path.abspath(_alt).encode()).hexdigest()[:8])
+    os.makedirs(_hs, exist_ok=True)
+    _sp.run(["rsync", "-a", "--delete", "--exclude", "target", HS + "/", _hs + "/"], check=True)
+    _ct = open(os.path.join(_hs, "Cargo.toml")).read().replace('"/repo/', '"%s/' % os.path.abspath(_alt))
+    open(os.path.join(_hs, "Cargo.toml"), "w").write(_ct)
+    HS = _hs
 GEN = os.path.join(HS, "src", "gen")
 NSHARDS = 8
 
